@@ -376,3 +376,39 @@ def gen_unescape(syn, tier, mode):
         let r = unescape(s);
         std::mem::forget(r);""", 6, mandatory=False, meta={"body": "backslash followed by é"})
     return UPRE, hs
+
+
+UNESCAPE_RS = "src/parse/unescape.rs"
+UNI_PRE = r"""
+    fn stub_format_u(_a: core::fmt::Arguments<'_>) -> String { String::new() }
+    fn hexval_u(h: u8) -> u32 { if h <= b'9' { (h - b'0') as u32 } else if h >= b'a' { (h - b'a') as u32 + 10 } else { (h - b'A') as u32 + 10 } }
+    fn ishex_u(h: u8) -> bool { (h >= b'0' && h <= b'9') || (h >= b'a' && h <= b'f') || (h >= b'A' && h <= b'F') }
+"""
+
+
+def gen_unicode(tier, functional):
+    """`\\u{h..}`: parse_unicode (private, generic over the character iterator) is driven directly with an iterator over a
+    fixed array, which avoids UTF-8 decoding of symbolic bytes: every escape with the listed number of hex digits denotes
+    exactly that code point (or is an error when it is not a scalar value) and consumes exactly through the closing brace."""
+    hs = []
+    for d in ((2,) if tier == "quick" else (1, 2, 3, 4)):
+        decl = "".join(f"let h{i} = inp.u8(); assume(ishex_u(h{i})); " for i in range(d))
+        items = ", ".join(["(0usize, '{')"] + [f"({i + 1}usize, h{i} as char)" for i in range(d)] + [f"({d + 1}usize, '}}')", f"({d + 2}usize, 'x')"])
+        cp = "0u32"
+        for i in range(d):
+            cp = f"({cp} * 16 + hexval_u(h{i}))"
+        check = (f"let cp = {cp}; match char::from_u32(cp) {{ Some(c) => assert!(matches!(&r, Ok(x) if *x == c)), None => assert!(r.is_err()) }}\n"
+                 "        assert!(matches!(it.next(), Some((_, 'x'))));") if functional else ""
+        body = f"""
+        {decl}
+        let items = [{items}];
+        let mut it = items.into_iter();
+        let r = parse_unicode(&mut it);
+        show("result", &r);
+        {check}
+        std::mem::forget(r);"""
+        h = Harness(f"{'c08' if functional else 'c06'}_parse_unicode_{d}digits", body, unwind=d + 10, stubs=[("alloc::fmt::format", "stub_format_u")],
+                    heavy=True, mandatory=False, meta={"escape": f"\\u{{<{d} hex digits>}}", "function": "parse::unescape::parse_unicode"})
+        h.file = UNESCAPE_RS
+        hs.append(h)
+    return UNI_PRE, hs
